@@ -38,6 +38,8 @@ def case_line(sc):
             toks.append("c:%d" % ev[1])
         elif ev[0] == "r":
             toks.append("r:%d" % ev[1])
+        elif ev[0] == "w":
+            toks.append("w:%d" % ev[1])
         else:
             toks.append("x")
     return " ".join(toks)
@@ -74,7 +76,7 @@ def reference(sc):
             conn = ev[1]; want.append(None)
         elif ev[0] == "x":
             conn = None; want.append(None)
-        elif ev[0] == "d":
+        elif ev[0] in ("d", "w"):
             want.append(None)
         elif ev[0] == "r":
             got = []
@@ -216,6 +218,18 @@ def gen_scenario(rng, lagfocus):
         conn = n; ev.append(["c", n])
     ev.append(["r", 0])
     return sc
+
+
+def gen_long_scenario(rng):
+    """a node that has served more than 1000 batches to other readers (its batch cache has been
+    trimmed) before this client reads its stream, with a reconnect in the middle"""
+    sess, i, stream = 1, 1, []
+    for _ in range(rng.randint(1060, 1200)):
+        i += rng.choice([1, 1, 2])
+        rc = sorted({rng.choice([2, 3, 4])} | ({sess} if rng.random() < 0.85 else set()))
+        stream.append([i, [[1, "%02x" % (65 + i % 26), rc]]])
+    ev = [["a", 0]] * len(stream) + [["w", 0], ["c", 0], ["r", rng.randint(100, 600)], ["x"], ["w", 0], ["c", 0], ["r", 0]]
+    return {"sess": sess, "ls0": [1, 0], "stream": stream, "events": ev, "note": "long stream, cache trimmed by other readers"}
 
 
 # ------------------------------------------------------------------ restore scenarios (stage 1: real FSM)
@@ -404,8 +418,8 @@ def shrink(sc, failing, max_rounds=60):
         return out
 
     cur = sc
-    if "fsm" in sc:
-        return sc           # streams come from the real FSM; the scenario is already a single resume
+    if "fsm" in sc or len(sc["stream"]) > 300:
+        return sc           # restore scenarios (streams from the real FSM) and cache-trimming scenarios are kept whole
     pre = [dict(cur, events=cur["events"][:n]) for n in range(1, len(cur["events"]))]
     for x, g in zip(pre, run(pre)):
         if failing(x, g):
@@ -510,6 +524,7 @@ def run(ck, replay):
         ncorpus = len(corpus)
         n = 1500 if ck.tier == "quick" else 20000
         cases = list(corpus) + [gen_scenario(ck.rng, lagfocus=(k % 2 == 0)) for k in range(n)]
+        cases += [gen_long_scenario(ck.rng) for _ in range(1 if ck.tier == "quick" else 6)]
         specs = [gen_fsm_spec(ck.rng) for _ in range(14 if ck.tier == "quick" else 150)]
         rcases, rerr, restore_info = build_restore_cases(specs)
         if rerr:
@@ -592,7 +607,7 @@ def run(ck, replay):
                       "message from just before the replayed window to the end (reference = stream of A); every scenario ends with a node that applies everything and a client that reads until the handler is parked; "
                       "non-trivial = messages were received on at least two connections; distinct by case text")
     ck.cov["input_distribution"] = dict(stats, corpus_cases=ncorpus, restore=restore_info)
-    ck.cov["samples"] = [{"case": lines[i], "impl": glines[i], "model": mlines[i]} for i in
+    ck.cov["samples"] = [{"case": lines[i][:1500], "impl": glines[i][:1500], "model": mlines[i][:1500]} for i in
                          ([0] if ncorpus else []) + [ncorpus, len(cases) - 1] if i < len(lines)][:3]
 
     reported = set()
